@@ -1,15 +1,39 @@
 (* CommentSpan.v — C12: comment ranges that span paragraphs, and the tuples
    returned by the comments attribute.
 
-   CommentFacts.v treats one paragraph.  Here the walk of a whole body
-   (paragraphs made of runs and range markers, markers between the paragraphs,
-   XML comments / PIs) is unfolded into the list of its POINTS: the states in
-   which each child of the body and each child of each paragraph is walked.
-   The run strings seen at any point are a prefix of those seen at every later
-   point and of the final run strings (across paragraph boundaries); the
-   recorded ranges are a fold over the marker events; hence each recorded
-   (b, e) cuts out exactly the run strings emitted between the two markers.
-   Tables between the paragraphs are NOT in the class (span_child). *)
+   CommentFacts.v treats one paragraph.  Here the walk of a whole body is
+   unfolded into the list of its POINTS (body_points, proved to be the walk
+   itself: body_points_loop): the states in which each child of the body and
+   each child of each paragraph is walked.
+
+   The class (span_child / span_doc, all boolean):
+     w:document > w:body > children, each child being
+     - a paragraph whose children are runs with inline content, range markers
+       (CommentFacts.run_or_marker) or inert elements (w:pPr, bookmarks, XML
+       comments, ...: no handler anywhere below, `inert`);
+     - a range marker between the paragraphs;
+     - an inert element (w:sectPr, ...);
+     - a flat quiet table whose cells hold simple paragraphs (opaque_tbl):
+       tables are allowed BETWEEN the paragraphs, but range markers INSIDE a
+       table, nested / irregular tables are outside the class.
+
+   Results:
+     body_points_sorted / body_markers_prefix : the run strings seen at any
+       point are a prefix of those seen at every later point and of the final
+       run strings, across paragraph (and table) boundaries;
+     body_ranges_fold : c_ranges after the body = fold of start_/end_comment_range
+       over the marker events, each with the number of run strings seen there;
+     body_range_is_slice / body_ranges_bounds : each recorded (b, e) has
+       b <= e <= number of final run strings and cuts out exactly the run
+       strings emitted between the last start marker of that id and the last
+       end marker of that id after it;
+     comments_tuple_spec, comments_order, comments_count_mismatch : the public
+       attribute, unfolded;
+     comment_reference_text : the two combined;
+     comments_order_example : a concrete archive (two overlapping comments
+       spanning two paragraphs and a table, entries in the opposite order).
+   As in CommentFacts (par_with_markers_prefix_counterexample) the existence of
+   the final run strings is a hypothesis wherever they are mentioned. *)
 From Coq Require Import List NArith ZArith Bool Arith Lia Sorted.
 From D2P Require Import Str Err Xml TableTypes Tables Fmt NumFmt Bullets Merge Collector Walk.
 From D2P Require Import Iter Output Paths Package Content.
@@ -48,9 +72,18 @@ Definition is_marker (t : anode) : bool :=
   | _ => false
   end.
 
+(* a table between the paragraphs: flat (rows of cells of simple paragraphs,
+   LineageFacts.flat_tbl, with the element names tbl / tr the lineage lemma
+   asks for), and quiet (SeqFacts.quiet: nothing with a handler outside its
+   paragraphs).  Its paragraphs contain NO range markers (simple_par). *)
+Definition opaque_tbl (t : anode) : bool :=
+  flat_tbl t && names_ok t && tbl_named t && quiet t.
+
 (* a child of the body: such a paragraph, a range marker between the
-   paragraphs, an inert element.  No tables. *)
-Definition span_child (t : anode) : bool := rm_par t || is_marker t || inert t.
+   paragraphs, an inert element, or such a table.  Tables that contain range
+   markers, nested or irregular tables are NOT in the class. *)
+Definition span_child (t : anode) : bool :=
+  rm_par t || is_marker t || inert t || opaque_tbl t.
 
 (* a point: the state, and the node that is walked in it (None: the state
    after the last child of a paragraph / after the last child of the body) *)
@@ -83,17 +116,22 @@ Section Points.
     s5 <- set_caret (Some 4%nat) None s4 ;;
     Ok (fst x ++ [(None, snd x)], s5).
 
+  (* one child of the body: only paragraphs of the class have inner points *)
+  Definition child_points (path : list nat) (i : nat) (k : anode) (s : cst)
+    : res (list point * cst) :=
+    match k with
+    | AE e pks =>
+        if rm_par k then par_points (i :: path) e pks s
+        else s' <- walk v (i :: path) k s ;; Ok ([], s')
+    | AX _ => Ok ([], s)
+    end.
+
   Fixpoint body_points (path : list nat) (ks : list anode) (i : nat) (s : cst)
     : res (list point * cst) :=
     match ks with
     | [] => Ok ([], s)
     | k :: r =>
-        x <- match k with
-             | AE e pks =>
-                 if rm_par k then par_points (i :: path) e pks s
-                 else s' <- walk v (i :: path) k s ;; Ok ([], s')
-             | AX _ => Ok ([], s)
-             end ;;
+        x <- child_points path i k s ;;
         y <- body_points path r (S i) (snd x) ;;
         Ok ((Some k, s) :: fst x ++ fst y, snd y)
     end.
@@ -222,7 +260,7 @@ Theorem body_points_loop v path : forall ks i s,
   kids_loop v path ks i s = (x <- body_points v path ks i s ;; Ok (snd x)).
 Proof.
   induction ks as [|k r IH]; intros i s; cbn [kids_loop body_points bind]; [reflexivity|].
-  destruct k as [e pks|tl].
+  unfold child_points. destruct k as [e pks|tl].
   - destruct (rm_par (AE e pks)) eqn:Hrm.
     + rewrite (walk_par_points v (i :: path) e pks s (proj1 (rm_par_AE _ _ Hrm))).
       destruct (par_points v (i :: path) e pks s) as [x|x]; [|reflexivity]. cbn [bind].
@@ -238,6 +276,117 @@ Corollary body_points_exist v path ks i s s' :
 Proof.
   rewrite body_points_loop. intro H. bind_inv H as x Ex. injection H as <-.
   exists (fst x). destruct x; reflexivity.
+Qed.
+
+(* ---- quiet tables: what they leave alone ---- *)
+Definition side2 (s s' : cst) : Prop := c_ranges s' = c_ranges s /\ c_queued s' = c_queued s.
+
+Lemma set_caret_side2 d name s s' : set_caret d name s = Ok s' -> side2 s s'.
+Proof.
+  destruct d as [d|]; intro H.
+  - apply set_caret_frame in H. destruct H as ((_ & Q & R & _) & _). split; assumption.
+  - cbn in H. injection H as <-. split; reflexivity.
+Qed.
+
+Lemma close_table_cell_side2 v e ks s s' : close_table_cell v e ks s = Ok s' -> side2 s s'.
+Proof.
+  intro H. unfold close_table_cell in H.
+  bind_inv H as pr Epr. cbv zeta in H.
+  bind_inv H as rows0 Erows0. bind_inv H as dummy Edummy.
+  bind_inv H as s1 Es1. bind_inv H as span Espan.
+  assert (K1 : side2 s s1).
+  { clear H Espan.
+    match type of Es1 with (if ?c then _ else _) = _ => destruct c end.
+    - bind_inv Es1 as sa Esa. bind_inv Es1 as t Et. bind_inv Es1 as rows Er.
+      bind_inv Es1 as prev Ep. bind_inv Es1 as cells Ec. cbv zeta in Es1.
+      apply set_caret_side2 in Esa.
+      destruct cells as [|cell0 cells0]; [injection Es1 as <-; exact Esa|].
+      destruct (py_nth (rev prev) (Z.of_nat (length (cell0 :: cells0)) - 1)) as [src|];
+        [|injection Es1 as <-; exact Esa].
+      bind_inv Es1 as root' Eroot. injection Es1 as <-. exact Esa.
+    - injection Es1 as <-. split; reflexivity. }
+  clear Es1 Espan. revert s1 K1 H. generalize (Z.to_nat (span - 1)).
+  induction n as [|n IH]; intros s1 K1 H.
+  - injection H as <-. exact K1.
+  - cbn [bind] in H. bind_inv H as sa Esa. bind_inv H as root' Eroot.
+    eapply IH; [|exact H]. apply set_caret_side2 in Esa. destruct Esa as [A B], K1 as [C D].
+    split; cbn [c_ranges c_queued set_tree]; congruence.
+Qed.
+
+(* ranges kept, an empty queue stays empty *)
+Definition side (s s' : cst) : Prop :=
+  c_ranges s' = c_ranges s /\ (c_queued s = [] -> c_queued s' = []).
+
+Lemma side_refl s : side s s. Proof. split; auto. Qed.
+Lemma side_trans a b c : side a b -> side b c -> side a c.
+Proof. intros [A B] [C D]. split; [congruence|auto]. Qed.
+Lemma side2_side s s' : side2 s s' -> side s s'.
+Proof. intros [A B]. split; [exact A|]. intro Q. rewrite B. exact Q. Qed.
+
+Lemma quiet_walk_side v : forall t, quiet t = true ->
+  forall path s s', Inv s -> walk v path t s = Ok s' -> side s s'.
+Proof.
+  apply (ShapeFacts.anode_ind'
+           (fun t => quiet t = true ->
+                     forall path s s', Inv s -> walk v path t s = Ok s' -> side s s')).
+  - intros tl _ path s s' _ H. cbn in H. injection H as <-. apply side_refl.
+  - intros e ks IH Hq path s s' Hi H.
+    cbn [quiet] in Hq. destruct (simple_par (AE e ks)) eqn:Hsp.
+    + destruct (inv_pars_at s Hi) as [ps Hps].
+      destruct (simple_par_walk _ _ _ _ _ _ _ Hsp Hi H Hps) as (p & _ & _ & Q & R & _).
+      split; [exact R|]. intros _. exact Q.
+    + cbn [orb] in Hq. apply andb_true_iff in Hq. destruct Hq as [Hm Hks].
+      apply negb_true_iff in Hm.
+      apply walk_AE_inv in H.
+      destruct H as (s1 & body & s2 & b & s3 & s4 & E1 & Eo & Ek & Ec & E5).
+      rewrite (open_tag_passive _ _ _ _ _ _ _ Hm) in Eo. injection Eo as <- <-.
+      pose proof (side2_side _ _ (set_caret_side2 _ _ _ _ E1)) as S1.
+      pose proof (good_ok_inv _ _ _ (set_caret_good _ _ _ (elem_depth_range (AE e ks)) Hi) E1)
+        as I1.
+      assert (R3 : Inv s3 /\ side s1 s3).
+      { eapply (LineageFacts.kids_loop_inv (fun s0 => Inv s0 /\ side s1 s0));
+          [|split; [exact I1|apply side_refl]|exact Ek].
+        intros k Hk path' sa sb [Ia Sa] Hw.
+        split; [eapply walk_inv; eauto|].
+        apply (side_trans _ _ _ Sa).
+        apply (proj1 (Forall_forall _ _) IH k Hk
+                 (proj1 (forallb_forall _ _) Hks k Hk) path' sa sb Ia Hw). }
+      destruct R3 as [I3 S3].
+      destruct (passive_not_par_run _ Hm) as [Hp Hr].
+      assert (S4 : side s3 s4).
+      { unfold close_tag in Ec. cbv zeta in Ec. rewrite Hp, Hr in Ec.
+        destruct (str_eqb (e_ptag e) tag_TABLE_CELL).
+        - exact (side2_side _ _ (close_table_cell_side2 _ _ _ _ _ Ec)).
+        - injection Ec as <-. apply side_refl. }
+      pose proof (side2_side _ _ (set_caret_side2 _ _ _ _ E5)) as S5.
+      exact (side_trans _ _ _ S1 (side_trans _ _ _ S3 (side_trans _ _ _ S4 S5))).
+Qed.
+
+Lemma opaque_tbl_walk v t path s s' :
+  opaque_tbl t = true -> Inv s -> walk v path t s = Ok s' ->
+  c_open s' = c_open s /\ side s s'
+  /\ (forall ps, pars_at 4%nat (c_tree s) = Ok ps ->
+                 exists new, pars_at 4%nat (c_tree s') = Ok (ps ++ new)).
+Proof.
+  unfold opaque_tbl. intros H Hi Hw.
+  apply andb_true_iff in H. destruct H as [H Hq]. apply andb_true_iff in H. destruct H as [H Hn].
+  apply andb_true_iff in H. destruct H as [Hf Hnm].
+  split; [exact (quiet_walk_open v t Hq _ _ _ Hi Hw)|].
+  split; [exact (quiet_walk_side v t Hq _ _ _ Hi Hw)|].
+  intros ps Hps.
+  destruct (flat_tbl_lineage v t path s s' ps Hf Hi Hw Hps) as (new & Hnew & _); [|exact Hnm|eauto].
+  intros e ks ->. cbn [tbl_named] in Hn. apply str_eqb_eq in Hn. exact Hn.
+Qed.
+
+Lemma child_points_inv v path i k s x :
+  Inv s -> child_points v path i k s = Ok x -> Inv (snd x).
+Proof.
+  intros Hi H. unfold child_points in H. destruct k as [e pks|tl].
+  - destruct (rm_par (AE e pks)) eqn:Hrm.
+    + apply (walk_inv v (AE e pks) (i :: path) s _ Hi).
+      rewrite (walk_par_points v (i :: path) e pks s (proj1 (rm_par_AE _ _ Hrm))), H. reflexivity.
+    + bind_inv H as s1 E1. injection H as <-. exact (walk_inv _ _ _ _ _ Hi E1).
+  - injection H as <-. exact Hi.
 Qed.
 
 (* ================================================================== *)
@@ -549,28 +698,42 @@ Proof.
 Qed.
 
 (* a child of the body that is not a paragraph of the class *)
-Lemma span_other_walk v path e pks s s' :
+Lemma span_other_cases e pks :
   span_child (AE e pks) = true -> rm_par (AE e pks) = false ->
-  walk v path (AE e pks) s = Ok s' ->
-  c_open s' = c_open s /\ c_tree s' = c_tree s
-  /\ ((is_marker (AE e pks) = true /\ pks = []) \/ (inert (AE e pks) = true /\ s' = s)).
+  (is_marker (AE e pks) = true /\ pks = []) \/ inert (AE e pks) = true
+  \/ opaque_tbl (AE e pks) = true.
 Proof.
-  intros Hsp Hrm Hw. unfold span_child in Hsp. rewrite Hrm in Hsp. cbn [orb] in Hsp.
-  apply orb_true_iff in Hsp. destruct Hsp as [Hm|Hi].
-  - destruct pks as [|k r]; [|discriminate Hm].
-    destruct (marker_walk_state v path e s s' Hm Hw) as [O T]. auto.
-  - rewrite (inert_walk v _ Hi) in Hw. injection Hw as <-. auto.
+  intros Hsp Hrm. unfold span_child in Hsp. rewrite Hrm in Hsp. cbn [orb] in Hsp.
+  apply orb_true_iff in Hsp. destruct Hsp as [Hsp|Ho]; [|auto].
+  apply orb_true_iff in Hsp. destruct Hsp as [Hm|Hi]; [|auto].
+  left. destruct pks as [|k r]; [auto|discriminate Hm].
+Qed.
+
+Lemma span_other_walk v path e pks s s' :
+  span_child (AE e pks) = true -> rm_par (AE e pks) = false -> Inv s ->
+  walk v path (AE e pks) s = Ok s' ->
+  c_open s' = c_open s
+  /\ (forall ps, pars_at 4%nat (c_tree s) = Ok ps ->
+                 exists new, pars_at 4%nat (c_tree s') = Ok (ps ++ new)).
+Proof.
+  intros Hsp Hrm Hi Hw. destruct (span_other_cases e pks Hsp Hrm) as [[Hm ->]|[Hin|Hop]].
+  - destruct (marker_walk_state v path e s s' Hm Hw) as [O T]. split; [exact O|].
+    intros ps Hps. exists []. rewrite app_nil_r, T. exact Hps.
+  - rewrite (inert_walk v _ Hin) in Hw. injection Hw as <-. split; [reflexivity|].
+    intros ps Hps. exists []. rewrite app_nil_r. exact Hps.
+  - destruct (opaque_tbl_walk v _ path s s' Hop Hi Hw) as (O & _ & G). auto.
 Qed.
 
 Lemma body_points_grow v path : forall ks i s x,
-  forallb span_child ks = true -> c_open s = [] -> body_points v path ks i s = Ok x ->
-  c_open (snd x) = [] /\ Forall (fun pt => grows s (snd pt)) (all_points x).
+  forallb span_child ks = true -> c_open s = [] -> Inv s -> body_points v path ks i s = Ok x ->
+  c_open (snd x) = [] /\ Inv (snd x) /\ Forall (fun pt => grows s (snd pt)) (all_points x).
 Proof.
-  induction ks as [|k r IH]; intros i s x Hks Ho H; cbn [body_points] in H.
-  - injection H as <-. unfold all_points. cbn [fst snd app]. split; [exact Ho|].
+  induction ks as [|k r IH]; intros i s x Hks Ho Hi H; cbn [body_points] in H.
+  - injection H as <-. unfold all_points. cbn [fst snd app]. split; [exact Ho|]. split; [exact Hi|].
     constructor; [apply grows_refl, Ho|constructor].
   - cbn [forallb] in Hks. apply andb_true_iff in Hks. destruct Hks as [K1 K2].
     bind_inv H as xk Ek. bind_inv H as y Ey. injection H as <-.
+    pose proof (child_points_inv v path i k s xk Hi Ek) as Ik. unfold child_points in Ek.
     unfold all_points. cbn [fst snd].
     assert (Hk : c_open (snd xk) = [] /\ grows s (snd xk) /\ Forall (fun pt => grows s (snd pt)) (fst xk)).
     { destruct k as [e pks|tl].
@@ -579,13 +742,13 @@ Proof.
           split; [exact O5|]. split; [exact G5|].
           eapply Forall_impl; [|exact HF]. intros pt [G _]. exact G.
         + bind_inv Ek as s1 E1. injection Ek as <-. cbn [fst snd].
-          destruct (span_other_walk v (i :: path) e pks s s1 K1 Hrm E1) as (O1 & T1 & _).
+          destruct (span_other_walk v (i :: path) e pks s s1 K1 Hrm Hi E1) as (O1 & G1).
           split; [rewrite O1; exact Ho|]. split; [|constructor].
-          split; [rewrite O1, Ho; cbn; lia|]. intros ps Hps. exists []. rewrite app_nil_r, T1. exact Hps.
+          split; [rewrite O1, Ho; cbn; lia|exact G1].
       - injection Ek as <-. cbn [fst snd]. split; [exact Ho|]. split; [apply grows_refl, Ho|constructor]. }
     destruct Hk as (Ok' & Gk & Fk).
-    destruct (IH (S i) (snd xk) y K2 Ok' Ey) as (Oy & Fy).
-    split; [exact Oy|].
+    destruct (IH (S i) (snd xk) y K2 Ok' Ik Ey) as (Oy & Iy & Fy).
+    split; [exact Oy|]. split; [exact Iy|].
     cbn [app]. constructor; [apply grows_refl, Ho|].
     rewrite <- app_assoc. apply Forall_app. split; [exact Fk|].
     eapply Forall_impl; [|exact Fy]. intros pt G. exact (grows_trans _ _ _ Gk G).
@@ -594,16 +757,17 @@ Qed.
 (* MAIN (structural form): along the points of the walk every later state
    extends every earlier one *)
 Theorem body_points_sorted v path : forall ks i s x,
-  forallb span_child ks = true -> c_open s = [] -> body_points v path ks i s = Ok x ->
+  forallb span_child ks = true -> c_open s = [] -> Inv s -> body_points v path ks i s = Ok x ->
   StronglySorted (fun p p' => ext (snd p) (snd p')) (all_points x).
 Proof.
-  induction ks as [|k r IH]; intros i s x Hks Ho H.
+  induction ks as [|k r IH]; intros i s x Hks Ho Hi H.
   - cbn [body_points] in H. injection H as <-. unfold all_points. cbn [fst snd app].
     constructor; constructor.
-  - destruct (body_points_grow v path (k :: r) i s x Hks Ho H) as (_ & HG).
+  - destruct (body_points_grow v path (k :: r) i s x Hks Ho Hi H) as (_ & _ & HG).
     cbn [body_points] in H.
     cbn [forallb] in Hks. apply andb_true_iff in Hks. destruct Hks as [K1 K2].
     bind_inv H as xk Ek. bind_inv H as y Ey. injection H as <-.
+    pose proof (child_points_inv v path i k s xk Hi Ek) as Ik. unfold child_points in Ek.
     unfold all_points in *. cbn [fst snd app] in *. constructor.
     2:{ apply Forall_inv_tail in HG. eapply Forall_impl; [|exact HG].
         intros pt G. exact (grows_ext _ _ Ho G). }
@@ -618,12 +782,12 @@ Proof.
           * eapply SS_impl; [|exact HS]. intros a b _ _ Hab. exact (inpar_ext _ _ Hab).
           * eapply Forall_impl; [|exact HF]. intros pt [_ C]. exact C.
         + bind_inv Ek as s1 E1. injection Ek as <-. cbn [fst snd].
-          destruct (span_other_walk v (i :: path) e pks s s1 K1 Hrm E1) as (O1 & T1 & _).
+          destruct (span_other_walk v (i :: path) e pks s s1 K1 Hrm Hi E1) as (O1 & _).
           split; [rewrite O1; exact Ho|]. split; constructor.
       - injection Ek as <-. cbn [fst snd]. split; [exact Ho|]. split; constructor. }
     destruct Hk as (Ok' & Sk & Ck).
-    destruct (body_points_grow v path r (S i) (snd xk) y K2 Ok' Ey) as (_ & Gy).
-    apply SS_app; [exact Sk|exact (IH (S i) (snd xk) y K2 Ok' Ey)|].
+    destruct (body_points_grow v path r (S i) (snd xk) y K2 Ok' Ik Ey) as (_ & _ & Gy).
+    apply SS_app; [exact Sk|exact (IH (S i) (snd xk) y K2 Ok' Ik Ey)|].
     intros a b Ha Hb.
     exact (concl_grows_ext _ _ _ (proj1 (Forall_forall _ _) Ck a Ha)
              (proj1 (Forall_forall _ _) Gy b Hb)).
@@ -647,16 +811,17 @@ Qed.
    particular at any marker) are a prefix of those seen at every later point,
    and of the final flattened run strings — across paragraph boundaries *)
 Theorem body_markers_prefix : forall v path ks i s tr s',
-  forallb span_child ks = true -> c_open s = [] -> body_points v path ks i s = Ok (tr, s') ->
+  forallb span_child ks = true -> c_open s = [] -> Inv s ->
+  body_points v path ks i s = Ok (tr, s') ->
   c_open s' = [] /\
   forall pre x st post l, tr = pre ++ (x, st) :: post -> runs_so_far v st = Ok l ->
     (forall y st2 l2, In (y, st2) post -> runs_so_far v st2 = Ok l2 -> exists z, l2 = l ++ z)
     /\ (forall lf, final_runs (html_on v) s' = Ok lf -> exists z, lf = l ++ z).
 Proof.
-  intros v path ks i s tr s' Hks Ho H.
-  destruct (body_points_grow v path ks i s (tr, s') Hks Ho H) as (O' & _).
+  intros v path ks i s tr s' Hks Ho Hi H.
+  destruct (body_points_grow v path ks i s (tr, s') Hks Ho Hi H) as (O' & _).
   split; [exact O'|]. cbn [snd] in O'.
-  pose proof (body_points_sorted v path ks i s (tr, s') Hks Ho H) as HS.
+  pose proof (body_points_sorted v path ks i s (tr, s') Hks Ho Hi H) as HS.
   unfold all_points in HS. cbn [fst snd] in HS.
   intros pre x st post l -> Hl. rewrite <- app_assoc in HS. cbn [app] in HS. split.
   - intros y st2 l2 Hin Hl2.
@@ -812,17 +977,42 @@ Proof.
   rewrite R5, R4, HR, R2. reflexivity.
 Qed.
 
+Lemma opaque_not_marker t : opaque_tbl t = true -> marker_of t = None.
+Proof.
+  unfold opaque_tbl. intro H.
+  apply andb_true_iff in H. destruct H as [H _]. apply andb_true_iff in H. destruct H as [H _].
+  apply andb_true_iff in H. destruct H as [Hf _].
+  destruct t as [e ks|tl]; [|reflexivity]. cbn [flat_tbl] in Hf.
+  apply andb_true_iff in Hf. destruct Hf as [Hf _]. apply andb_true_iff in Hf.
+  destruct Hf as [Ht _]. apply str_eqb_eq in Ht. unfold marker_of. rewrite Ht.
+  destruct ks; reflexivity.
+Qed.
+
+Lemma span_other_ranges v path e pks s s' :
+  span_child (AE e pks) = true -> rm_par (AE e pks) = false -> Inv s ->
+  walk v path (AE e pks) s = Ok s' ->
+  c_ranges s' = fold_left ev_step (point_events v (Some (AE e pks), s)) (c_ranges s).
+Proof.
+  intros Hsp Hrm Hi Hw. destruct (span_other_cases e pks Hsp Hrm) as [[Hm ->]|[Hin|Hop]].
+  - exact (marker_step v path e s s' Hm Hw).
+  - rewrite (inert_walk v _ Hin) in Hw. injection Hw as <-. unfold point_events. cbn [fst].
+    rewrite (inert_not_marker _ Hin). reflexivity.
+  - destruct (opaque_tbl_walk v _ path s s' Hop Hi Hw) as (_ & [R _] & _).
+    unfold point_events. cbn [fst]. rewrite (opaque_not_marker _ Hop). exact R.
+Qed.
+
 (* 1b (exact form). the dictionary of ranges after the body is the fold of
    start_/end_comment_range over the marker events, each with the number of
    run strings seen at its point *)
 Theorem body_ranges_fold v path : forall ks i s x,
-  forallb span_child ks = true -> c_open s = [] -> body_points v path ks i s = Ok x ->
+  forallb span_child ks = true -> c_open s = [] -> Inv s -> body_points v path ks i s = Ok x ->
   c_ranges (snd x) = fold_left ev_step (events v (fst x)) (c_ranges s).
 Proof.
-  induction ks as [|k r IH]; intros i s x Hks Ho H; cbn [body_points] in H.
+  induction ks as [|k r IH]; intros i s x Hks Ho Hi H; cbn [body_points] in H.
   - injection H as <-. reflexivity.
   - cbn [forallb] in Hks. apply andb_true_iff in Hks. destruct Hks as [K1 K2].
     bind_inv H as xk Ek. bind_inv H as y Ey. injection H as <-. cbn [fst snd].
+    pose proof (child_points_inv v path i k s xk Hi Ek) as Ik. unfold child_points in Ek.
     change (events v ((Some k, s) :: fst xk ++ fst y))
       with (point_events v (Some k, s) ++ events v (fst xk ++ fst y)).
     rewrite events_app, !fold_left_app.
@@ -838,14 +1028,12 @@ Proof.
           unfold point_events. cbn [fst].
           rewrite (par_not_marker e pks (proj1 (rm_par_AE _ _ Hrm))). reflexivity.
         + bind_inv Ek as s1 E1. injection Ek as <-. cbn [fst snd events flat_map fold_left].
-          destruct (span_other_walk v (i :: path) e pks s s1 K1 Hrm E1)
-            as (O1 & _ & [[Hm ->]|[Hin ->]]).
-          * split; [rewrite O1; exact Ho|]. exact (marker_step v (i :: path) e s s1 Hm E1).
-          * split; [exact Ho|]. unfold point_events. cbn [fst].
-            rewrite (inert_not_marker _ Hin). reflexivity.
+          destruct (span_other_walk v (i :: path) e pks s s1 K1 Hrm Hi E1) as (O1 & _).
+          split; [rewrite O1; exact Ho|].
+          exact (span_other_ranges v (i :: path) e pks s s1 K1 Hrm Hi E1).
       - injection Ek as <-. cbn [fst snd]. split; [exact Ho|reflexivity]. }
     destruct Hk as (Ok' & Rk).
-    rewrite (IH (S i) (snd xk) y K2 Ok' Ey), Rk. reflexivity.
+    rewrite (IH (S i) (snd xk) y K2 Ok' Ik Ey), Rk. reflexivity.
 Qed.
 
 (* ================================================================== *)
@@ -998,14 +1186,15 @@ Qed.
 (* the marker events of a body: each sees a prefix of what the later ones and
    the final state see *)
 Lemma body_events_sorted v path ks i s tr s' lf :
-  forallb span_child ks = true -> c_open s = [] -> body_points v path ks i s = Ok (tr, s') ->
+  forallb span_child ks = true -> c_open s = [] -> Inv s ->
+  body_points v path ks i s = Ok (tr, s') ->
   final_runs (html_on v) s' = Ok lf ->
   StronglySorted runs_prefix (events v tr)
   /\ Forall (fun a => exists z, lf = ev_runs a ++ z) (events v tr).
 Proof.
-  intros Hks Ho H Hlf.
-  pose proof (body_points_sorted v path ks i s (tr, s') Hks Ho H) as HS.
-  destruct (body_points_grow v path ks i s (tr, s') Hks Ho H) as (O' & _). cbn [snd] in O'.
+  intros Hks Ho Hi H Hlf.
+  pose proof (body_points_sorted v path ks i s (tr, s') Hks Ho Hi H) as HS.
+  destruct (body_points_grow v path ks i s (tr, s') Hks Ho Hi H) as (O' & _). cbn [snd] in O'.
   unfold all_points in HS. cbn [fst snd] in HS.
   split.
   - apply (SS_flat_map (fun p p' => ext (snd p) (snd p')) runs_prefix (point_events v) tr
@@ -1027,7 +1216,7 @@ Qed.
 (* 1c. body_range_is_slice: every recorded range (b, e) cuts exactly the run
    strings emitted between its two markers out of the final run strings *)
 Theorem body_range_is_slice : forall v path ks i s tr s' lf id b e,
-  forallb span_child ks = true -> c_open s = [] -> c_ranges s = [] ->
+  forallb span_child ks = true -> c_open s = [] -> Inv s -> c_ranges s = [] ->
   body_points v path ks i s = Ok (tr, s') ->
   final_runs (html_on v) s' = Ok lf ->
   dict_get id (c_ranges s') = Some (b, e) ->
@@ -1035,9 +1224,9 @@ Theorem body_range_is_slice : forall v path ks i s tr s' lf id b e,
     /\ between (events v tr) id l1 l2
     /\ firstn (e - b) (skipn b lf) = l2.
 Proof.
-  intros v path ks i s tr s' lf id b e Hks Ho Hr H Hlf Hg.
-  destruct (body_events_sorted v path ks i s tr s' lf Hks Ho H Hlf) as (HS & HF).
-  pose proof (body_ranges_fold v path ks i s (tr, s') Hks Ho H) as HR. cbn [fst snd] in HR.
+  intros v path ks i s tr s' lf id b e Hks Ho Hi Hr H Hlf Hg.
+  destruct (body_events_sorted v path ks i s tr s' lf Hks Ho Hi H Hlf) as (HS & HF).
+  pose proof (body_ranges_fold v path ks i s (tr, s') Hks Ho Hi H) as HR. cbn [fst snd] in HR.
   rewrite HR, Hr in Hg.
   destruct (range_slice_pure _ lf id b e HS HF Hg) as (l1 & l2 & l3 & E & Hb & He & Hbt).
   exists l1, l2, l3. repeat (split; [assumption|]).
@@ -1048,15 +1237,15 @@ Qed.
    model an end marker never lowers e below b: an end before its start is
    ignored, a later start resets the pair; a start without end has e = b.) *)
 Theorem body_ranges_bounds : forall v path ks i s tr s' lf id b e,
-  forallb span_child ks = true -> c_open s = [] -> c_ranges s = [] ->
+  forallb span_child ks = true -> c_open s = [] -> Inv s -> c_ranges s = [] ->
   body_points v path ks i s = Ok (tr, s') ->
   final_runs (html_on v) s' = Ok lf ->
   dict_get id (c_ranges s') = Some (b, e) ->
   (b <= e <= length lf)%nat
   /\ ((forall ev, In ev (events v tr) -> ev_id ev = id -> ev_start ev = true) -> e = b).
 Proof.
-  intros v path ks i s tr s' lf id b e Hks Ho Hr H Hlf Hg.
-  destruct (body_range_is_slice v path ks i s tr s' lf id b e Hks Ho Hr H Hlf Hg)
+  intros v path ks i s tr s' lf id b e Hks Ho Hi Hr H Hlf Hg.
+  destruct (body_range_is_slice v path ks i s tr s' lf id b e Hks Ho Hi Hr H Hlf Hg)
     as (l1 & l2 & l3 & E & Hb & He & Hbt & _).
   split.
   - rewrite E, Hb, He, !app_length. lia.
@@ -1128,27 +1317,36 @@ Proof.
   rewrite Q5, Q4, HQ. exact Q2.
 Qed.
 
+Lemma span_other_queued v path e pks s s' :
+  span_child (AE e pks) = true -> rm_par (AE e pks) = false -> Inv s ->
+  walk v path (AE e pks) s = Ok s' -> c_queued s = [] -> c_queued s' = [].
+Proof.
+  intros Hsp Hrm Hi Hw Hq. destruct (span_other_cases e pks Hsp Hrm) as [[Hm ->]|[Hin|Hop]].
+  - rewrite (marker_walk_queued v path e s s' Hm Hw). exact Hq.
+  - rewrite (inert_walk v _ Hin) in Hw. injection Hw as <-. exact Hq.
+  - destruct (opaque_tbl_walk v _ path s s' Hop Hi Hw) as (_ & [_ Q] & _). exact (Q Hq).
+Qed.
+
 Lemma body_points_queued v path : forall ks i s x,
-  forallb span_child ks = true -> c_open s = [] -> c_queued s = [] ->
+  forallb span_child ks = true -> c_open s = [] -> Inv s -> c_queued s = [] ->
   body_points v path ks i s = Ok x -> c_queued (snd x) = [].
 Proof.
-  induction ks as [|k r IH]; intros i s x Hks Ho Hq H; cbn [body_points] in H.
+  induction ks as [|k r IH]; intros i s x Hks Ho Hi Hq H; cbn [body_points] in H.
   - injection H as <-. exact Hq.
   - cbn [forallb] in Hks. apply andb_true_iff in Hks. destruct Hks as [K1 K2].
     bind_inv H as xk Ek. bind_inv H as y Ey. injection H as <-. cbn [snd].
+    pose proof (child_points_inv v path i k s xk Hi Ek) as Ik. unfold child_points in Ek.
     assert (Hk : c_open (snd xk) = [] /\ c_queued (snd xk) = []).
     { destruct k as [e pks|tl].
       - destruct (rm_par (AE e pks)) eqn:Hrm.
         + destruct (par_points_spec v (i :: path) e pks s xk Hrm Ho Ek) as (O5 & _).
           split; [exact O5|]. exact (par_points_queued v (i :: path) e pks s xk Hrm Ho Ek).
         + bind_inv Ek as s1 E1. injection Ek as <-. cbn [snd].
-          destruct (span_other_walk v (i :: path) e pks s s1 K1 Hrm E1)
-            as (O1 & _ & [[Hm ->]|[Hin ->]]).
-          * split; [rewrite O1; exact Ho|].
-            rewrite (marker_walk_queued v (i :: path) e s s1 Hm E1). exact Hq.
-          * auto.
+          destruct (span_other_walk v (i :: path) e pks s s1 K1 Hrm Hi E1) as (O1 & _).
+          split; [rewrite O1; exact Ho|].
+          exact (span_other_queued v (i :: path) e pks s s1 K1 Hrm Hi E1 Hq).
       - injection Ek as <-. auto. }
-    destruct Hk as (Ok' & Qk). exact (IH (S i) (snd xk) y K2 Ok' Qk Ey).
+    destruct Hk as (Ok' & Qk). exact (IH (S i) (snd xk) y K2 Ok' Ik Qk Ey).
 Qed.
 
 (* the root of a main document part in the class *)
@@ -1180,8 +1378,8 @@ Proof.
   rewrite (walk_body v (0%nat :: path) eb ks init_cst Heb) in E1'.
   destruct (body_points_exist v (0%nat :: path) ks 0%nat init_cst s1' E1') as (tr & Htr).
   exists tr. rewrite Htr. f_equal. f_equal.
-  destruct (body_points_grow v _ ks 0%nat init_cst (tr, s1') Hks eq_refl Htr) as (O1 & _).
-  pose proof (body_points_queued v _ ks 0%nat init_cst (tr, s1') Hks eq_refl eq_refl Htr) as Q1.
+  destruct (body_points_grow v _ ks 0%nat init_cst (tr, s1') Hks eq_refl init_inv Htr) as (O1 & _).
+  pose proof (body_points_queued v _ ks 0%nat init_cst (tr, s1') Hks eq_refl init_inv eq_refl Htr) as Q1.
   cbn [snd] in O1, Q1.
   unfold finish in H. rewrite Q1 in H. cbn [bind] in H.
   unfold conclude_paragraph in H. rewrite O1 in H. injection H as <-. reflexivity.
@@ -1422,7 +1620,7 @@ Proof.
   injection Ec as <- <-. rewrite Hid in Eid. injection Eid as <-.
   rewrite <- Hh in Ear.
   destruct (body_range_is_slice v [0%nat] (doc_body m) 0%nat init_cst tr dc all_runs id b e'
-              Hks eq_refl eq_refl Htr Ear Eg)
+              Hks eq_refl init_inv eq_refl Htr Ear Eg)
     as (l1 & l2 & l3 & E & Hb & He & Hbt & Hsl).
   exists l1, l2, l3, author, (ostr date), (join s_nn (map (@concat N) pss)).
   split; [rewrite Ht, Hsl; reflexivity|].
@@ -1432,8 +1630,8 @@ Qed.
 
 (* ================================================================== *)
 (* S9: an archive with two overlapping comments that span two           *)
-(*     paragraphs; the entries of the comments part are in the opposite *)
-(*     order of the range starts                                        *)
+(*     paragraphs and a table between them; the entries of the comments *)
+(*     part are in the opposite order of the range starts               *)
 (* ================================================================== *)
 Section Example.
   Import String.StringSyntax.
@@ -1455,13 +1653,17 @@ Section Example.
   Definition mstart (id : String.string) := wel "commentRangeStart" [("id", id)] None [].
   Definition mend (id : String.string) := wel "commentRangeEnd" [("id", id)] None [].
 
-  (* <w:p><w:pPr/>[0 A [1 B</w:p> <w:p>C 0] D 1]</w:p> <w:sectPr/> *)
+  (* <w:p><w:pPr/>[0 A [1 B</w:p> <w:tbl>T</w:tbl> <w:p>C 0] D 1]</w:p> <w:sectPr/> *)
   Definition ex_doc : rnode :=
     wel "document" [] None
       [wel "body" [] None
          [wel "p" [] None
             [wel "pPr" [] None [wel "jc" [] None []];
              mstart "0"; wrun "A"; mstart "1"; wrun "B"];
+          wel "tbl" [] None
+            [wel "tblPr" [] None [];
+             wel "tr" [] None
+               [wel "tc" [] None [wel "tcPr" [] None []; wel "p" [] None [wrun "T"]]]];
           wel "p" [] None [wrun "C"; mend "0"; wrun "D"; mend "1"];
           wel "sectPr" [] None []]].
   (* the entry of comment 1 comes first *)
@@ -1479,10 +1681,10 @@ Section Example.
   Definition ex_opts : opts := {| o_html := false; o_dup := true |}.
 
   Definition ex_result : list (str * str * str * str) :=
-    [(s2l "BCD", s2l "Y", [], s2l "second");
-     (s2l "ABC", s2l "X", s2l "d", s2l "first" ++ [10; 10] ++ s2l "more")].
+    [(s2l "BTCD", s2l "Y", [], s2l "second");
+     (s2l "ABTC", s2l "X", s2l "d", s2l "first" ++ [10; 10] ++ s2l "more")].
   Definition ex_ranges : list (str * (nat * nat)) :=
-    [(s2l "0", (0%nat, 3%nat)); (s2l "1", (1%nat, 4%nat))].
+    [(s2l "0", (0%nat, 4%nat)); (s2l "1", (1%nat, 5%nat))].
 End Example.
 
 (* the hypotheses of comment_reference_text hold of it (the class is not
